@@ -284,22 +284,55 @@ def run(ctx):
             chromatic(ctx, dict(bins)["tomita"], tag="chromatic-tomita",
                       sizes=["graphs=100", "calls=8", "heur=1", "nmin=20", "nmax=34", "cliq=1"])
 
+    # ---- traversals as state machines (the walker modules of the extra check X02, run here because the
+    #      traversal clause belongs to this property): Traverse.tla / TraverseImpl.tla / TraverseTrace.tla
+    #      (BreadthFirst / DepthFirst: Walk, continued Walk, Reset and reuse, WalkAll, callbacks) and the
+    #      NodeStack / NodeQueue behind them (Linear.tla / LinearImpl.tla).
+    x02 = _x02()
+    hb = x02.build_shim(ctx, "")
+    ctx.parallel([lambda: x02.traverse_r1(ctx), lambda: x02.traverse_r3(ctx, hb), lambda: x02.linear_part(ctx, hb)], width=3)
+
     ctx.assumptions += [
         "TLC/SANY and the CommunityModules Json module are trusted",
         "the harness's container builders, id binding (model id <-> real id) and set/bag comparison are trusted",
         "iteration order of gonum containers is not controlled (Go map order); results are compared as sets/bags",
+        "traverse: the walker is only used the documented way (Reset after an early exit; Walk from a node not yet visited); "
+        "graph/internal/linear is reached through a one-file alias package injected with `go build -overlay`",
     ]
     return ctx.finish(
         rule="R2: one case = one enumerated graph (or graph + partial colouring / graph pair / generator call) "
              "built in one container type under one id map with all routines of its family called and compared; "
              "non-trivial = the graph has at least one edge (partial colouring non-empty, product non-empty, "
              "generator call with edges or a documented panic). R3: one trace = one recorded graph event "
-             "accepted by TLC.",
+             "accepted by TLC. Traversals: one case = one recorded Walk / WalkAll call of a real walker accepted by "
+             "TLC; one history of NodeStack / NodeQueue calls.",
         exhaustive=True)
+
+
+def _x02():
+    import importlib.util
+    import os as _os
+    p = _os.path.join(_os.path.dirname(_os.path.abspath(__file__)), "X02.py")
+    spec = importlib.util.spec_from_file_location("prop_X02_for_C14", p)
+    mod = importlib.util.module_from_spec(spec)
+    spec.loader.exec_module(mod)
+    return mod
 
 
 def replay(ctx, path):
     d = json.load(open(path))["data"]
+    if "trace" in d and str(d.get("spec", "")).startswith("misc/"):
+        ok, st = ctx.validate(d["spec"], d["spec"].replace(".tla", ".cfg"), d["trace"], subst=d.get("cfg") or {})
+        print("trace accepted" if ok else "trace rejected: " + st.get("detail", "")[:800])
+        if not ok:
+            print("VIOLATION property=C14 replay=%s" % path)
+        return 0 if ok else 1
+    if str(d.get("area", "")).startswith("misc-"):
+        one = os.path.join(ctx.work, "one.ndjson")
+        with open(one, "w") as fh:
+            fh.write(json.dumps(d["failure"]["case"]) + "\n")
+        ctx.replay(_x02().build_shim(ctx, ""), d["area"], one, d["args"], confirm=False)
+        return ctx.finish()
     if "trace" in d:
         ok, st = ctx.validate(d["spec"], d["spec"].replace(".tla", ".cfg"), d["trace"], subst=d.get("subst"),
                               accept_re=d.get("accept_re", r"TRACE-ACCEPTED (\d+)"))
